@@ -137,7 +137,9 @@ class DeviceModel(Listener):
             conn.dev_fin(delay)
         elif mode == "rst":
             conn.dead = True
-            conn.dev_rst(delay)
+            import errno as _e
+            conn.dev_rst(delay, {"reset": _e.ECONNRESET, "timedout": _e.ETIMEDOUT, "hostunreach": _e.EHOSTUNREACH,
+                                 "netunreach": _e.ENETUNREACH, "pipe": _e.EPIPE}[spec.get("err", "reset")])
         elif mode == "silent":
             pass
         else:
